@@ -242,6 +242,10 @@ class Scenario(apiworld.ApiWorld):
         if tasks or timers:
             what = [t.get_coro().__qualname__ for t in tasks] + [getattr(h._callback, "__qualname__", repr(h._callback)) + f" due in {round(h._when - L.time(), 3)} s" for h in timers]
             return self._v("nothing-left-scheduled", f"when shutdown() has returned the client still has scheduled: {what[:4]}")
+        if self.p.get("prompt_reinit"):
+            # the application re-initialises the same object the moment shutdown() has returned: whatever of the old
+            # session is still winding down must not leak into the new one
+            return self._reinit_oracle(prompt=True)
         L.run_until(t_stop, on_turn=chk)
         if bad:
             return bad[0]
@@ -281,6 +285,20 @@ class Scenario(apiworld.ApiWorld):
             return v
         # re-init against a different installation
         if self.p.get("reinit", True):
+            v = self._reinit_oracle(prompt=False)
+            if v:
+                return v
+        # Not part of the statement: a subscriber task orphaned by the cancellation in close() may end
+        # with NotOpenError that nobody retrieves ("Task exception was never retrieved").  Counted only.
+        self.unretrieved = len(self.loop_reports())
+        return None
+
+    def _reinit_oracle(self, prompt):
+        L = self.loop
+        self.net.auto = "accept"
+        self.console.auto = True
+        self.net.resolve_all(True)
+        if True:
             new = _other_installation(self.gen)
             self.console.inst = new
             self.console.state = console.default_state(new)
@@ -311,9 +329,6 @@ class Scenario(apiworld.ApiWorld):
             fresh = fresh_life(self.gen)
             if second != fresh:
                 return self._v("reinit-behaves-like-fresh", f"requests during 700 s after re-init {second} differ from a fresh object's {fresh}")
-        # Not part of the statement: a subscriber task orphaned by the cancellation in close() may end
-        # with NotOpenError that nobody retrieves ("Task exception was never retrieved").  Counted only.
-        self.unretrieved = len(self.loop_reports())
         return None
 
 
@@ -343,6 +358,13 @@ def run(tier, seed, part=None):
             res = explorer.explore(SPEC, params, len(script) + 1, 1, time_cap=cap, seed=seed, label=f"at{gen}/{name}")
             chk.add_explorer(f"at{gen}/backbone/{name}", SPEC, params, res,
                              {"script_events": len(script), "shutdown": "at every turn boundary", "deviations": 1})
+        # ... and the same for the handshake backbones with init() called again the moment shutdown() has returned
+        for name in ("handshake+heartbeat+poll", "pending-while-down"):
+            script = scripts[name][:8]
+            params = {"gen": gen, "script": script, "max_tick": 99, "prompt_reinit": True}
+            res = explorer.explore(SPEC, params, len(script) + 1, 1, time_cap=cap, seed=seed, label=f"at{gen}/{name}/prompt-reinit")
+            chk.add_explorer(f"at{gen}/backbone/{name}/prompt-reinit", SPEC, params, res,
+                             {"script_events": len(script), "shutdown": "at every turn boundary", "then": "init() at once", "deviations": 1})
         if tier == "thorough":
             for depth, dev in [(9, 1), (7, 2)]:
                 params = {"gen": gen, "max_tick": 3, "failw": True}
